@@ -76,3 +76,337 @@ Theorem C08_reset_fresh_gymabs :
     snd (gabs_reset G e c) = snd (gabs_reset G e gabs_fresh).
 Proof. exact @gymabs_reset_fresh. Qed.
 Print Assumptions C08_reset_fresh_gymabs.
+
+(* ---- composition: manager over wrapper(s) over simulation -------------------------------------
+   Ctl/Stack.v packages the wrapper models as instances of the `simulation` record
+   (super_sim, comm_sim, sar_sim = Wrappers.wrap_stack), Proofs/Stack_proofs.v composes the reset
+   facts of the layers.  A congruence (`sim_congr Sim R`) is a relation on simulation states that
+   reset, step and every getter respect; `eq` is one for every simulation, "equal up to the call
+   logs" is the one for models that carry a ghost log (w_log, c_log, the scripted simulation's
+   s_steps/s_reads, which survive reset). *)
+From Abm Require Import Spaces.Space Spaces.Flatten Ctl.Super Ctl.Comms Ctl.Wrappers Ctl.Stack.
+From Abm Require Import Proofs.Managers_proofs Proofs.Stack_proofs.
+
+(* every manager call, hence every run, is a function of the congruence class of the simulation
+   state, the done set and (turn-based) the pointer: generalises C08_episode_indistinguishable's
+   induction from `eq` to any congruence *)
+Theorem C08_run_respects_congruence :
+  forall (St Obs Info Act : Type) (Sim : simulation St Obs Info Act) (R : St -> St -> Prop),
+  sim_congr Sim R -> forall k cs m1 m2, mrel R k m1 m2 ->
+  fst (run Sim k m1 cs) = fst (run Sim k m2 cs) /\
+  mrel R k (snd (run Sim k m1 cs)) (snd (run Sim k m2 cs)).
+Proof. exact @run_rel. Qed.
+Print Assumptions C08_run_respects_congruence.
+
+Theorem C08_episode_indistinguishable_upto :
+  forall (St Obs Info Act : Type) (Sim : simulation St Obs Info Act) (R : St -> St -> Prop),
+  sim_congr Sim R -> forall k m1 m2 cs, mgr_ok Sim k ->
+  R (sim_reset Sim (m_sim m1)) (sim_reset Sim (m_sim m2)) ->
+  fst (run Sim k m1 (CReset :: cs)) = fst (run Sim k m2 (CReset :: cs)).
+Proof. exact @episode_rel. Qed.
+Print Assumptions C08_episode_indistinguishable_upto.
+
+Theorem C08_used_vs_fresh_upto :
+  forall (St Obs Info Act : Type) (Sim : simulation St Obs Info Act) (R : St -> St -> Prop),
+  sim_congr Sim R -> forall k s0 h cs, mgr_ok Sim k ->
+  R (sim_reset Sim (m_sim (snd (run Sim k (init s0) h)))) (sim_reset Sim s0) ->
+  fst (run Sim k (snd (run Sim k (init s0) h)) (CReset :: cs)) =
+  fst (run Sim k (init s0) (CReset :: cs)).
+Proof. exact @used_vs_fresh_rel. Qed.
+Print Assumptions C08_used_vs_fresh_upto.
+
+Theorem C08_eq_is_congruence :
+  forall (St Obs Info Act : Type) (Sim : simulation St Obs Info Act), sim_congr Sim eq.
+Proof. exact @congr_eq. Qed.
+Print Assumptions C08_eq_is_congruence.
+
+(* ---- the layers: each lifts a congruence of the simulation below, and its reset sends ANY two
+   wrapper states (whatever flags / tables / logs they hold) whose inner states reset into related
+   states to related wrapper states -------------------------------------------------------------- *)
+Theorem C08_layer_super :
+  forall (St Obs Info Act : Type) (Sim : simulation St Obs Info Act) mapping null_obs
+         (R : St -> St -> Prop), sim_congr Sim R ->
+  sim_congr (super_sim Sim mapping null_obs) (super_rel R) /\
+  (forall w1 w2 : wst St Act,
+     R (sim_reset Sim (w_sim w1)) (sim_reset Sim (w_sim w2)) ->
+     super_rel R (sim_reset (super_sim Sim mapping null_obs) w1)
+                 (sim_reset (super_sim Sim mapping null_obs) w2)) /\
+  (reset_forgets Sim R -> reset_forgets (super_sim Sim mapping null_obs) (super_rel R)).
+Proof.
+  exact (fun St Obs Info Act Sim mapping null_obs R C =>
+           conj (super_congr Sim mapping null_obs R C)
+                (conj (super_reset_rel Sim mapping null_obs R)
+                      (super_forgets Sim mapping null_obs R))).
+Qed.
+Print Assumptions C08_layer_super.
+
+Theorem C08_layer_comm :
+  forall (St Obs Info Act : Type) (Sim : simulation St Obs Info Act) s_fobs
+         (R : St -> St -> Prop), sim_congr Sim R -> fobs_congr s_fobs R ->
+  sim_congr (comm_sim Sim s_fobs) (comm_rel R) /\
+  (forall c1 c2 : cst St Act,
+     R (sim_reset Sim (c_sim c1)) (sim_reset Sim (c_sim c2)) ->
+     comm_rel R (sim_reset (comm_sim Sim s_fobs) c1) (sim_reset (comm_sim Sim s_fobs) c2)) /\
+  (reset_forgets Sim R -> reset_forgets (comm_sim Sim s_fobs) (comm_rel R)).
+Proof.
+  exact (fun St Obs Info Act Sim s_fobs R C F =>
+           conj (comm_congr Sim s_fobs R C F)
+                (conj (comm_reset_rel Sim s_fobs R) (comm_forgets Sim s_fobs R))).
+Qed.
+Print Assumptions C08_layer_comm.
+
+(* any list of stacked Ravel / Flatten / FlattenAction wrappers *)
+Theorem C08_layer_sar :
+  forall (St Info : Type) (R : St -> St -> Prop) ks sp (S : simulation St upoint Info upoint),
+  sim_congr S R ->
+  sim_congr (sar_sim ks sp S) R /\
+  sim_reset (sar_sim ks sp S) = sim_reset S /\
+  (reset_forgets S R -> reset_forgets (sar_sim ks sp S) R).
+Proof.
+  exact (fun St Info R ks sp S C =>
+           conj (sar_congr R ks sp S C) (conj (sar_reset_eq ks sp S) (sar_forgets R ks sp S))).
+Qed.
+Print Assumptions C08_layer_sar.
+
+(* ---- used versus fresh for stacks: every inner simulation, congruence, manager kind, start
+   state, history h and follow-up call list; the only reset hypothesis is on the INNER simulation,
+   at the inner state the history reached ------------------------------------------------------- *)
+Theorem C08_stack_used_vs_fresh_super :
+  forall (St Obs Info Act : Type) (Sim : simulation St Obs Info Act) (R : St -> St -> Prop),
+  sim_congr Sim R -> forall mapping null_obs k (w0 : wst St Act) h cs,
+  mgr_ok (super_sim Sim mapping null_obs) k ->
+  R (sim_reset Sim (w_sim (m_sim (snd (run (super_sim Sim mapping null_obs) k (init w0) h)))))
+    (sim_reset Sim (w_sim w0)) ->
+  fst (run (super_sim Sim mapping null_obs) k
+           (snd (run (super_sim Sim mapping null_obs) k (init w0) h)) (CReset :: cs)) =
+  fst (run (super_sim Sim mapping null_obs) k (init w0) (CReset :: cs)).
+Proof. exact @stack_super. Qed.
+Print Assumptions C08_stack_used_vs_fresh_super.
+
+Theorem C08_stack_used_vs_fresh_comm :
+  forall (St Obs Info Act : Type) (Sim : simulation St Obs Info Act) (R : St -> St -> Prop),
+  sim_congr Sim R -> forall s_fobs k (c0 : cst St Act) h cs,
+  fobs_congr s_fobs R ->
+  mgr_ok (comm_sim Sim s_fobs) k ->
+  R (sim_reset Sim (c_sim (m_sim (snd (run (comm_sim Sim s_fobs) k (init c0) h)))))
+    (sim_reset Sim (c_sim c0)) ->
+  fst (run (comm_sim Sim s_fobs) k (snd (run (comm_sim Sim s_fobs) k (init c0) h)) (CReset :: cs)) =
+  fst (run (comm_sim Sim s_fobs) k (init c0) (CReset :: cs)).
+Proof. exact @stack_comm. Qed.
+Print Assumptions C08_stack_used_vs_fresh_comm.
+
+Theorem C08_stack_used_vs_fresh_sar :
+  forall (St Info : Type) (S : simulation St upoint Info upoint) (R : St -> St -> Prop),
+  sim_congr S R -> forall ks sp k (s0 : St) h cs,
+  mgr_ok (sar_sim ks sp S) k ->
+  R (sim_reset S (m_sim (snd (run (sar_sim ks sp S) k (init s0) h)))) (sim_reset S s0) ->
+  fst (run (sar_sim ks sp S) k (snd (run (sar_sim ks sp S) k (init s0) h)) (CReset :: cs)) =
+  fst (run (sar_sim ks sp S) k (init s0) (CReset :: cs)).
+Proof. exact @stack_sar. Qed.
+Print Assumptions C08_stack_used_vs_fresh_sar.
+
+(* the Leibniz instances (R = eq): exactly the hypothesis of C08_used_vs_fresh, on the inner
+   simulation *)
+Theorem C08_stack_used_vs_fresh_super_eq :
+  forall (St Obs Info Act : Type) (Sim : simulation St Obs Info Act) mapping null_obs k
+         (w0 : wst St Act) h cs,
+  mgr_ok (super_sim Sim mapping null_obs) k ->
+  sim_reset Sim (w_sim (m_sim (snd (run (super_sim Sim mapping null_obs) k (init w0) h)))) =
+  sim_reset Sim (w_sim w0) ->
+  fst (run (super_sim Sim mapping null_obs) k
+           (snd (run (super_sim Sim mapping null_obs) k (init w0) h)) (CReset :: cs)) =
+  fst (run (super_sim Sim mapping null_obs) k (init w0) (CReset :: cs)).
+Proof. exact @stack_super_eq. Qed.
+Print Assumptions C08_stack_used_vs_fresh_super_eq.
+
+Theorem C08_stack_used_vs_fresh_comm_eq :
+  forall (St Obs Info Act : Type) (Sim : simulation St Obs Info Act) s_fobs k (c0 : cst St Act) h cs,
+  mgr_ok (comm_sim Sim s_fobs) k ->
+  sim_reset Sim (c_sim (m_sim (snd (run (comm_sim Sim s_fobs) k (init c0) h)))) =
+  sim_reset Sim (c_sim c0) ->
+  fst (run (comm_sim Sim s_fobs) k (snd (run (comm_sim Sim s_fobs) k (init c0) h)) (CReset :: cs)) =
+  fst (run (comm_sim Sim s_fobs) k (init c0) (CReset :: cs)).
+Proof. exact @stack_comm_eq. Qed.
+Print Assumptions C08_stack_used_vs_fresh_comm_eq.
+
+Theorem C08_stack_used_vs_fresh_sar_eq :
+  forall (St Info : Type) (S : simulation St upoint Info upoint) ks sp k (s0 : St) h cs,
+  mgr_ok (sar_sim ks sp S) k ->
+  sim_reset S (m_sim (snd (run (sar_sim ks sp S) k (init s0) h))) = sim_reset S s0 ->
+  fst (run (sar_sim ks sp S) k (snd (run (sar_sim ks sp S) k (init s0) h)) (CReset :: cs)) =
+  fst (run (sar_sim ks sp S) k (init s0) (CReset :: cs)).
+Proof. exact @stack_sar_eq. Qed.
+Print Assumptions C08_stack_used_vs_fresh_sar_eq.
+
+(* depth three, obtained by applying the layer theorems in sequence: manager over
+   SuperAgentWrapper over CommunicationHandshakeWrapper over any stack of Ravel/Flatten wrappers
+   over S; with a forgetful innermost reset no hypothesis about reached states is left *)
+Theorem C08_stack_used_vs_fresh_super_comm_sar :
+  forall (St Info : Type) (S : simulation St upoint Info upoint) (R : St -> St -> Prop),
+  sim_congr S R -> forall ks sp s_fobs mapping null_obs k
+         (w0 : wst (cst St upoint) (cact upoint)) h cs,
+  fobs_congr s_fobs R -> reset_forgets S R ->
+  mgr_ok (super_sim (comm_sim (sar_sim ks sp S) s_fobs) mapping null_obs) k ->
+  fst (run (super_sim (comm_sim (sar_sim ks sp S) s_fobs) mapping null_obs) k
+           (snd (run (super_sim (comm_sim (sar_sim ks sp S) s_fobs) mapping null_obs) k (init w0) h))
+           (CReset :: cs)) =
+  fst (run (super_sim (comm_sim (sar_sim ks sp S) s_fobs) mapping null_obs) k (init w0) (CReset :: cs)).
+Proof. exact @stack_super_comm_sar_forgets. Qed.
+Print Assumptions C08_stack_used_vs_fresh_super_comm_sar.
+
+(* ---- purity of get_done transfers through every layer, so the theorems of C01 / C07 that are
+   stated under `done_stable` apply to wrapped simulations --------------------------------------- *)
+Theorem C08_done_stable_super :
+  forall (St Obs Info Act : Type) (Sim : simulation St Obs Info Act) mapping null_obs,
+  done_stable Sim -> done_stable (super_sim Sim mapping null_obs).
+Proof. exact @super_done_stable. Qed.
+Print Assumptions C08_done_stable_super.
+
+Theorem C08_done_stable_comm :
+  forall (St Obs Info Act : Type) (Sim : simulation St Obs Info Act) s_fobs,
+  (forall s a fm, greach Sim s (snd (s_fobs s a fm))) ->
+  done_stable Sim -> done_stable (comm_sim Sim s_fobs).
+Proof. exact @comm_done_stable. Qed.
+Print Assumptions C08_done_stable_comm.
+
+Theorem C08_done_stable_sar :
+  forall (St Info : Type) ks sp (S : simulation St upoint Info upoint),
+  done_stable S -> done_stable (sar_sim ks sp S).
+Proof. exact @sar_done_stable. Qed.
+Print Assumptions C08_done_stable_sar.
+
+(* ---- the scripted simulation: its reset keeps the two call logs, so it is NOT forgetful up to
+   `eq` — it is up to script_rel (clock and pending rewards), which is a congruence; hence for
+   every script, mapping, null declaration, manager, start state, history and follow-up: -------- *)
+Theorem C08_script_congruence :
+  forall sc, sim_congr (script_sim sc) script_rel /\ reset_forgets (script_sim sc) script_rel /\
+             fobs_congr ss_fobs script_rel.
+Proof. exact (fun sc => conj (script_congr sc) (conj (script_forgets sc) script_fobs_congr)). Qed.
+Print Assumptions C08_script_congruence.
+
+Theorem C08_script_super_used_vs_fresh :
+  forall sc mapping nulls k (w0 : wst sst Z) h cs,
+  mgr_ok (super_sim (script_sim sc) mapping nulls) k ->
+  fst (run (super_sim (script_sim sc) mapping nulls) k
+           (snd (run (super_sim (script_sim sc) mapping nulls) k (init w0) h)) (CReset :: cs)) =
+  fst (run (super_sim (script_sim sc) mapping nulls) k (init w0) (CReset :: cs)).
+Proof. exact script_super_used_vs_fresh. Qed.
+Print Assumptions C08_script_super_used_vs_fresh.
+
+Theorem C08_script_comm_used_vs_fresh :
+  forall sc k (c0 : cst sst Z) h cs,
+  mgr_ok (comm_sim (script_sim sc) ss_fobs) k ->
+  fst (run (comm_sim (script_sim sc) ss_fobs) k
+           (snd (run (comm_sim (script_sim sc) ss_fobs) k (init c0) h)) (CReset :: cs)) =
+  fst (run (comm_sim (script_sim sc) ss_fobs) k (init c0) (CReset :: cs)).
+Proof. exact script_comm_used_vs_fresh. Qed.
+Print Assumptions C08_script_comm_used_vs_fresh.
+
+(* non-vacuity (vm_compute).  SuperAgentWrapper over a 3-agent script (super agent 0 covers
+   agents 0 and 1, agent 0 done from t = 1): the history raises both flags of agent 0 and leaves
+   an uncollected reward; the hypotheses of C08_stack_used_vs_fresh_super hold with
+   R = script_rel for both managers while the Leibniz hypothesis is false (the logs differ), the
+   follow-up episode is the same on the used stack and on a new one (the first follow-up step
+   shows agent 0's own observation 100 again, not its null observation 7), and without the reset
+   the two stacks are told apart. *)
+Example C08_stack_nonvacuous_super :
+  let Sim := script_sim nv_script in
+  let used := snd (run nv_super MAll (init nv_w0) nv_h) in
+  mgr_ok nv_super MAll /\ mgr_ok nv_super MTurn /\
+  script_rel (sim_reset Sim (w_sim (m_sim used))) (sim_reset Sim (w_sim nv_w0)) /\
+  w_orep (m_sim used) = [0%nat] /\ w_rrep (m_sim used) = [0%nat] /\
+  s_pend (w_sim (m_sim used)) = [4; 0; 0]%Z /\
+  sim_reset Sim (w_sim (m_sim used)) <> sim_reset Sim (w_sim nv_w0) /\
+  fst (run nv_super MAll used (CReset :: nv_cs)) = fst (run nv_super MAll (init nv_w0) (CReset :: nv_cs)) /\
+  nth 1 (fst (run nv_super MAll used (CReset :: nv_cs))) RError =
+    ROut {| o_obs := [(0%nat, WSupObs [(0%nat, 100%Z); (1%nat, 101%Z)] [(0%nat, false); (1%nat, true)]);
+                      (1%nat, WPlainObs 102%Z)];
+            o_rew := [(0%nat, 3%Z); (1%nat, 3%Z)];
+            o_done := [(0%nat, false); (1%nat, false)];
+            o_info := [(0%nat, WSupInfo [(0%nat, (-100)%Z); (1%nat, (-101)%Z)]);
+                       (1%nat, WPlainInfo (-102)%Z)];
+            o_all := false |} /\
+  fst (run nv_super MAll used nv_cs) <> fst (run nv_super MAll (init nv_w0) nv_cs).
+Proof.
+  cbv zeta. split; [split; [discriminate|discriminate]|].
+  split; [split; [discriminate|intros _; vm_compute; discriminate]|].
+  split; [split; reflexivity|].
+  repeat split; try (vm_compute; reflexivity); vm_compute; discriminate.
+Qed.
+
+(* CommunicationHandshakeWrapper over the same script: the history leaves message_buffer[2][1]
+   and received_message[1][0] set; after reset the follow-up is the same as on a new stack, and
+   in its second step agent 2's observation is fused with agent 1's (code 2^1 * 10000). *)
+Example C08_stack_nonvacuous_comm :
+  let Sim := script_sim nv_script in
+  let used := snd (run nv_comm MAll (init nv_c0) nv_ch) in
+  mgr_ok nv_comm MAll /\ mgr_ok nv_comm MTurn /\
+  script_rel (sim_reset Sim (c_sim (m_sim used))) (sim_reset Sim (c_sim nv_c0)) /\
+  entry_of_rows (c_buf (m_sim used)) 2 1 = Some true /\
+  entry_of_rows (c_rcv (m_sim used)) 1 0 = Some true /\
+  m_done used = [0%nat] /\
+  sim_reset Sim (c_sim (m_sim used)) <> sim_reset Sim (c_sim nv_c0) /\
+  fst (run nv_comm MAll used (CReset :: nv_ccs)) = fst (run nv_comm MAll (init nv_c0) (CReset :: nv_ccs)) /\
+  nth 2 (fst (run nv_comm MAll used (CReset :: nv_ccs))) RError =
+    ROut {| o_obs := [(1%nat, CObs 201%Z [(0%nat, false); (2%nat, false)]);
+                      (2%nat, CObs 20202%Z [(0%nat, false); (1%nat, false)])];
+            o_rew := [(1%nat, 5%Z); (2%nat, 6%Z)];
+            o_done := [(1%nat, false); (2%nat, false)];
+            o_info := [(1%nat, (-201)%Z); (2%nat, (-202)%Z)];
+            o_all := false |} /\
+  fst (run nv_comm MAll used nv_ccs) <> fst (run nv_comm MAll (init nv_c0) nv_ccs).
+Proof.
+  cbv zeta. split; [split; [discriminate|discriminate]|].
+  split; [split; [discriminate|intros _; vm_compute; discriminate]|].
+  split; [split; reflexivity|].
+  repeat split; try (vm_compute; reflexivity); vm_compute; discriminate.
+Qed.
+
+(* SARWrapper.get_obs drops keyword arguments: over a SAR stack the communication wrapper's fused
+   getter is the plain getter (drop_fm), which respects every congruence of the stack *)
+Theorem C08_drop_fm_congruence :
+  forall (St Obs Info Act : Type) (S : simulation St Obs Info Act) (R : St -> St -> Prop),
+  sim_congr S R -> fobs_congr (drop_fm S) R.
+Proof. exact @drop_fm_congr. Qed.
+Print Assumptions C08_drop_fm_congruence.
+
+(* manager over SuperAgentWrapper over CommunicationHandshakeWrapper over any Ravel/Flatten stack
+   over any script (seen through structured spaces, script_usim): no hypothesis but mgr_ok *)
+Theorem C08_script_deep_used_vs_fresh :
+  forall sc ks sp mapping nulls k (w0 : wst (cst sst upoint) (cact upoint)) h cs,
+  mgr_ok (super_sim (comm_sim (sar_sim ks sp (script_usim sc))
+                              (drop_fm (sar_sim ks sp (script_usim sc)))) mapping nulls) k ->
+  fst (run (super_sim (comm_sim (sar_sim ks sp (script_usim sc))
+                                (drop_fm (sar_sim ks sp (script_usim sc)))) mapping nulls) k
+           (snd (run (super_sim (comm_sim (sar_sim ks sp (script_usim sc))
+                                          (drop_fm (sar_sim ks sp (script_usim sc)))) mapping nulls) k
+                     (init w0) h)) (CReset :: cs)) =
+  fst (run (super_sim (comm_sim (sar_sim ks sp (script_usim sc))
+                                (drop_fm (sar_sim ks sp (script_usim sc)))) mapping nulls) k
+           (init w0) (CReset :: cs)).
+Proof. exact script_deep_used_vs_fresh. Qed.
+Print Assumptions C08_script_deep_used_vs_fresh.
+
+(* non-vacuity of the deep stack (nv_deep: super agent {0,1} over the communication wrapper over
+   RavelDiscreteWrapper over the 3-agent script): the history raises the super-agent flags, leaves
+   message_buffer[2][1] and received_message[1][0] set and a reward uncollected; ravelled actions
+   11, 5, 7 reach the script as (2,3), (1,1), (1,3) = 11, 5, 7 after decoding; after reset the
+   follow-up equals the one on a new stack, without it they differ *)
+Example C08_stack_nonvacuous_deep :
+  let used := snd (run nv_deep MAll (init nv_d0) nv_dh) in
+  mgr_ok nv_deep MAll /\ mgr_ok nv_deep MTurn /\
+  w_orep (m_sim used) = [0%nat] /\ w_rrep (m_sim used) = [0%nat] /\
+  entry_of_rows (c_buf (w_sim (m_sim used))) 2 1 = Some true /\
+  entry_of_rows (c_rcv (w_sim (m_sim used))) 1 0 = Some true /\
+  s_pend (c_sim (w_sim (m_sim used))) = [4; 0; 0]%Z /\
+  s_steps (c_sim (w_sim (m_sim used))) =
+    [[(0%nat, 11%Z); (1%nat, 5%Z); (2%nat, 7%Z)]; [(1%nat, 6%Z); (2%nat, 2%Z)]] /\
+  fst (run nv_deep MAll used (CReset :: nv_dcs)) = fst (run nv_deep MAll (init nv_d0) (CReset :: nv_dcs)) /\
+  fst (run nv_deep MTurn used (CReset :: nv_dcs)) = fst (run nv_deep MTurn (init nv_d0) (CReset :: nv_dcs)) /\
+  length (fst (run nv_deep MAll used (CReset :: nv_dcs))) = 3%nat /\
+  fst (run nv_deep MAll used nv_dcs) <> fst (run nv_deep MAll (init nv_d0) nv_dcs).
+Proof.
+  cbv zeta. split; [split; [discriminate|discriminate]|].
+  split; [split; [discriminate|intros _; vm_compute; discriminate]|].
+  repeat split; try (vm_compute; reflexivity); vm_compute; discriminate.
+Qed.
